@@ -38,6 +38,8 @@ inductive Outcome
   /-- whatever a constructor's own set-up raised after `Lexical.__init__` (a graph creator that
   raises, an unknown input keyword, a failing autoload / autorun) -/
   | setupError
+  /-- a refusal that depends on the node's run state (seeded variant C13-10) -/
+  | runtimeError
   deriving DecidableEq, Repr, Inhabited
 
 structure Cfg where
@@ -493,6 +495,26 @@ def loadInPlace (cfg : Cfg) (t : Tree) (c : Nat) : Tree :=
   let t1 := if cfg.loadKeepsOwner then t else { t with parent := updF t.parent c none }
   reown cfg.fuel t1 c
 
+/-! ## state-carrying operations: `copy.copy(composite)`, executor return -/
+
+/-- the variant of seeded change C13-12: `child._parent = self` — nobody asks the previous owner -/
+def copyRaw (t : Tree) (c c' : Nat) : Tree :=
+  { t with label := updF t.label c' (t.label c),
+           children := updF t.children c' (t.children c),
+           starting := updF t.starting c' (t.starting c),
+           parent := fun v => if v ∈ vals (t.children c) then some c' else if v = c' then none else t.parent v }
+
+/-- `remove_child` of a node whose parent setter refuses to let go while it is `running` (seeded
+variant C13-10).  `guardFirst`: the composite asks before it pops; otherwise the refusal arrives
+after `children.inv.pop(child)` -/
+def removeChildGuarded (cfg : Cfg) (guardFirst : Bool) (running : Nat → Bool) (t : Tree) (q c : Nat) :
+    Tree × Outcome :=
+  if (t.kind q).isComposite = false then (t, .noMethod)
+  else if c ∉ vals (t.children q) then (t, .keyError)
+  else if running c = false then removeChild cfg t q c
+  else if guardFirst then (t, .runtimeError)
+  else ({ t with children := updF t.children q (popVal (t.children q) c) }, .runtimeError)
+
 inductive Op
   | new (c : Nat) (label : Str) (np : Option Nat)
   | add (p c : Nat) (lbl : Option Str) (strict : Option Bool)
@@ -506,6 +528,15 @@ inductive Op
   | newWith (c : Nat) (label : Str) (kids : List Nat) (fails : Bool)
   | setStarting (p : Nat) (l : List Nat)
   deriving Repr
+
+/-- `copy.copy(c)`: the copy `c'` gets `c.__getstate__()` — the *live* child objects — and
+`LexicalParent.__setstate__` does `child.parent = self` for each: the parent setter asks the
+previous live owner to release the child, so the children (and with them the starting nodes) move
+from `c` to `c'`.  As a history of the operations above (the same happens to the spent copy a
+by-value executor hands back, `_parse_remotely_executed_self`). -/
+def copyOps (t : Tree) (c c' : Nat) : List Op :=
+  [Op.new c' (t.label c) none] ++ (t.children c).map (fun e => Op.setparent e.2 (some c')) ++
+    [Op.setStarting c' (t.starting c)]
 
 def step (cfg : Cfg) (t : Tree) : Op → Tree × Outcome
   | .new c l np => newNode cfg t c l np
